@@ -375,7 +375,9 @@ def run(ctx):
     okv, whyv = _inv.validator_scans_all(fx)
     ctx.inst('V', 'indexed-pixel validator', okv, 'validate_indexed_pixels: %s (a dense-palette shortcut would reject valid sprites with a sparse '
              'palette and accept indices that have no colour)' % whyv, None, key='asefile::palette::ColorPalette::validate_indexed_pixels|V|scan')
+    layout.tile_words(ctx, 'T')
     # ---------- shared skeleton clauses
+    render.layer_image_unconditional(ctx, rule='N')
     render.opacity_and_mode(ctx)
     render.operands_and_offset(ctx)
     render.no_extra_skips(ctx, rule='K8')
